@@ -763,6 +763,14 @@ def _classify(res, allowed_spec, rep, prefix, fn_filter=None, kinds=None):
                 if A_COUNT not in rep.assumed:
                     rep.assumed.append(A_COUNT)
                 continue
+            if fn == ITER + "::try_recover" and kind == "ASSERT" and desc.startswith("Overflow(Add)(_"):
+                # a declared size grown by the skipped distance (what is added to what is checked by R-RECOVER-STRETCH): A-OFF covers it,
+                # whether the sum is written with the checked operator or through std's wrapping `&usize + usize`
+                rep.obligations += 1
+                rep.discharged += 1
+                if A_OFF not in rep.assumed:
+                    rep.assumed.append(A_OFF)
+                continue
             if fn == ITER + "::current_offset" and desc.startswith("Overflow(Add)"):
                 rep.obligations += 1
                 rep.discharged += 1
@@ -806,15 +814,19 @@ def _reviewed_premises(ctx, rep):
     bm = find_one(prog, "TagIterator::buffer_master")
     # (A) the roll-up (the map over the children that unwraps them) is reached only when the stopping item is_ok()
     maps = bm.calls_to("std::iter::Iterator::map")
-    isok = bm.calls_to("std::result::Result::is_ok")
     okA = False
+    # the test may be written is_ok() (roll-up on its true edge) or is_err() (roll-up on its false edge, e.g. after an early return), or as a
+    # match on the item's discriminant (roll-up on the Ok edge)
+    tests = [(x, True) for x in bm.calls_to("std::result::Result::is_ok")] + [(x, False) for x in bm.calls_to("std::result::Result::is_err")]
     for mb, mt, mc in maps:
-        for ib, it_, ic in isok:
+        for (ib, it_, ic), want_true in tests:
             nxt = it_["target"]
             tt = bm.blocks[nxt]["term"] if nxt is not None else None
             if tt is not None and tt["k"] == "switch":
                 true_t = tt["otherwise"] if all(v == 0 for v, _ in tt["targets"]) else next((tg for v, tg in tt["targets"] if v == 1), None)
-                if true_t is not None and bm.edge_dominates((nxt, true_t), mb):
+                false_t = next((tg for v, tg in tt["targets"] if v == 0), None)
+                edge_t = true_t if want_true else false_t
+                if edge_t is not None and bm.edge_dominates((nxt, edge_t), mb):
                     okA = True
     rep.instance("buffer_master: roll-up guarded by is_ok() on the stopping item: %s" % okA)
     rep.oblige(okA, "REVIEWED-PREMISE|buffer_master|rollup-guard", bm.span, "the children are unwrapped on a path where the stopping item was not tested with is_ok()")
